@@ -91,7 +91,6 @@ Section WithOracle.
   Definition xpath_to_cats := path_to_cats str str str str_eqb str_eqb str_eqb xf_eq_Z (o_float o) (o_tnp o) (o_tfmt o) (o_tpd o) (o_delta o).
   Definition xpaths_to_cats := paths_to_cats str str str str_eqb str_eqb str_eqb xf_eq_Z (o_float o) (o_tnp o) (o_tfmt o) (o_tpd o) (o_delta o).
   Definition xread_model := read_model str str str str_eqb str_eqb str_eqb xf_eq_Z (o_float o) (o_tnp o) (o_tfmt o) (o_tpd o) (o_delta o) Z.
-  Definition xrow_value := row_value str str str (o_float o) (o_tnp o) (o_tfmt o) (o_tpd o) (o_delta o).
 End WithOracle.
 
 (* (v) = returns v, "ValueError", "Error" *)
